@@ -16,9 +16,9 @@
   the old one to the requests that hold it: `clear_parameters()` (`self._parameters = {}`), `clear_iterations()`
   (`self._iterator = []`), a new `RemoteProcessor`, a new `Sampler`.
 
-  The heap machine `hstep alias` is the symbol machine `Model/C16.step` plus the two families of objects and, per job,
-  the objects its request points to.  `alias = true`: the code as it is — at `execute` the request is read through its
-  references.  `alias = false`: the repaired code (`fixes/C16-job-snapshot.diff`: `dict(self._parameters)`,
+  The heap machine `hstep aliased` is the symbol machine `Model/C16.step` plus the two families of objects and, per job,
+  the objects its request points to.  `aliased = true`: the code as it is — at `execute` the request is read through its
+  references.  `aliased = false`: the repaired code (`fixes/C16-job-snapshot.diff`: `dict(self._parameters)`,
   `list(self._iterator)`) — the request is what it was when the job was created, i.e. `step` itself.
 -/
 import PercevalModel.Model.C16
@@ -90,9 +90,9 @@ def heapAfter (hw : HWorld) (op : Op) (w' : World) (o : Out) : HWorld :=
     else hw.jrefs
   ⟨w', pobjs, iobjs, jrefs⟩
 
-def hstep (alias : Bool) (hw : HWorld) (op : Op) : HWorld × Out :=
+def hstep (aliased : Bool) (hw : HWorld) (op : Op) : HWorld × Out :=
   let w0 := match op with
-    | .execute idx _ _ _ => if alias then derefJob hw idx else hw.w
+    | .execute idx _ _ _ => if aliased then derefJob hw idx else hw.w
     | _ => hw.w
   let r := step w0 op
   (heapAfter hw op r.1 r.2, r.2)
